@@ -291,6 +291,7 @@ class Interp:
         self.thin = False
         self.yield_stack = []
         self.class_attrs = {}    # (class name, attribute) -> value stored at run time on a class object
+        self.globals_cache = {}  # (module, name) -> value of a module-level / class-level binding (evaluated once, shared)
         self.ph_of = {}          # poly key -> placeholder token
         self.ph_val = {}         # placeholder token -> Poly
         self.int_tokens = set()  # keys of Polys that stand for (arbitrarily large) integer ids
@@ -364,19 +365,39 @@ class Interp:
         return False
 
     def equalities(self):
-        """(substitution {var: constant} implied by the exact-equality decisions of this path, all of them of that simple form?)"""
-        sub, simple = {}, True
-        for k, signs in self.facts.items():
-            if signs != {0}:
-                continue
-            terms = dict(k)
-            lin = [(m, c) for m, c in terms.items() if m != ()]
-            if len(lin) == 1 and len(lin[0][0]) == 1 and lin[0][0][0][1] == 1:
-                v = poly.R.vars[lin[0][0][0][0]]
-                sub[v] = -Fraction(terms.get((), 0)) / Fraction(lin[0][1])
-            else:
-                simple = False
-        return sub, simple
+        """(substitution {var: constant} implied by the exact-equality decisions of this path, all of them accounted for?)
+
+        Derived to a fixpoint from the path's `== 0` facts with two sound rules over the reals:
+          c*x + k == 0            =>  x = -k/c
+          sum_i c_i * x_i^2 == 0  =>  every x_i = 0      (all c_i of one sign, no constant term)
+        An equality that becomes 0 == 0 under the substitution is accounted for; anything else makes the path "not simple"."""
+        sub = {}
+        pending = [Poly(dict(k)) for k, signs in self.facts.items() if signs == {0}]
+        changed = True
+        while changed and pending:
+            changed = False
+            rest = []
+            for e in pending:
+                e2 = e.subs(sub) if sub else e
+                if e2.is_zero():
+                    changed = True
+                    continue
+                terms = e2.t
+                nonconst = [(m, c) for m, c in terms.items() if m != ()]
+                if len(nonconst) == 1 and len(nonconst[0][0]) == 1 and nonconst[0][0][0][1] == 1:
+                    v = poly.R.vars[nonconst[0][0][0][0]]
+                    sub[v] = -Fraction(terms.get((), 0)) / Fraction(nonconst[0][1])
+                    changed = True
+                    continue
+                if () not in terms and nonconst and all(len(m) == 1 and m[0][1] == 2 for m, c in nonconst) and \
+                        (all(c > 0 for m, c in nonconst) or all(c < 0 for m, c in nonconst)):
+                    for m, c in nonconst:
+                        sub[poly.R.vars[m[0][0]]] = Fraction(0)
+                    changed = True
+                    continue
+                rest.append(e2)
+            pending = rest
+        return sub, not pending
 
     def known_zero(self, d):
         """Is polynomial d known to vanish on this path (identically, or by an equality decision taken earlier)?"""
@@ -886,7 +907,7 @@ class Interp:
         if mod is not None:
             consts = self.pkg.module_consts.get(mod, {})
             if nm in consts:
-                return self.ev(consts[nm], {})
+                return self.module_global(mod, nm, consts[nm])
             imps = self.pkg.module_imports.get(mod, {})
             if nm in imps:
                 origin = imps[nm]
@@ -900,7 +921,7 @@ class Interp:
                         return Opaque("pkgfunc", leaf)
                     for rel, cs in sorted(self.pkg.module_consts.items()):
                         if leaf in cs:
-                            return self.ev_in_module(cs[leaf], rel)
+                            return self.module_global(rel, leaf, cs[leaf])
                 return Opaque("import", origin)
         if nm in self.pkg.classes:
             return ClassRef(nm)
@@ -913,6 +934,20 @@ class Interp:
         if nm == "float":
             return FLOAT
         raise self.unsupported("unknown name %s" % nm, n)
+
+    def module_global(self, rel, nm, expr):
+        """A module-level binding is evaluated once per program run: mutable values (arrays, dicts used as memo tables, ...)
+        are shared by every reference, exactly as in Python."""
+        key = (rel, nm)
+        if key not in self.globals_cache:
+            self.globals_cache[key] = self.ev_in_module(expr, rel)
+        return self.globals_cache[key]
+
+    def class_const(self, owner, nm, expr):
+        key = ("class", owner, nm)
+        if key not in self.globals_cache:
+            self.globals_cache[key] = self.ev_in_module(expr, self.pkg.classes[owner].module)
+        return self.globals_cache[key]
 
     def ev_in_module(self, expr, rel):
         fake = ast.FunctionDef(name="<module>", args=None, body=[], decorator_list=[])
@@ -1412,7 +1447,7 @@ class Interp:
                 if k[0] == "prop":
                     return self.call_function(k[1], [v])
                 if k[0] == "const":
-                    return self.ev(k[1], {})
+                    return self.class_const(k[2], a, k[1])
                 return Opaque("bound", v, a)
         if isinstance(v, Arr) and a == "__dict__":
             return v.__dict__.setdefault("attrs", {})
@@ -1438,7 +1473,7 @@ class Interp:
                 k = self.pkg.lookup(v.name, a)
                 if k is not None:
                     if k[0] == "const":
-                        return self.ev(k[1], {})
+                        return self.class_const(k[2], a, k[1])
                     if k[0] == "method":
                         return Opaque("clsmeth", v, a)
                 ci = self.pkg.classes[v.name]
@@ -1457,7 +1492,7 @@ class Interp:
                 if k[0] == "prop":
                     return self.call_function(k[1], [v])
                 if k[0] == "const":
-                    return self.ev(k[1], {})
+                    return self.class_const(k[2], a, k[1])
                 return Opaque("bound", v, a)
             if a == "__class__":
                 return ClassRef(v.cls)
@@ -2014,6 +2049,18 @@ class Interp:
                 return Poly.const(len(v))
             if v is None:
                 raise PathRaise("TypeError(len(None))", self.where(n))
+            if isinstance(v, (set, frozenset)):
+                # structurally different symbolic numbers may still be equal: every pair is a decision
+                reps, other = [], 0
+                for k in sorted(v, key=repr):
+                    if isinstance(k, tuple) and len(k) == 2 and k[0] in ("poly", "num"):
+                        q = Poly(dict(k[1])) if k[0] == "poly" else Poly.const(k[1])
+                        if any((q - r).is_zero() or not self.decide_sign(q - r, {-1, 1}, "%s != %s" % (q.short(30), r.short(30))) for r in reps):
+                            continue
+                        reps.append(q)
+                    else:
+                        other += 1
+                return Poly.const(len(reps) + other)
             raise self.unsupported("len of %r" % (v,), n)
         if name == "range":
             iv = [self.intval(a, n) for a in args]
@@ -2097,12 +2144,34 @@ class Interp:
         if name == "filter":
             return [x for x in self.iterate(args[1], n) if (self.truth(self.call_value(args[0], [x], n), n) if args[0] is not None else self.truth(x, n))]
         if name == "sorted":
-            seq = self.iterate(args[0], n)
-            if all(isinstance(x, Poly) and x.const_value() is not None for x in seq):
-                return sorted(seq, key=lambda x: Fraction(x.const_value()))
-            if all(isinstance(x, str) for x in seq):
-                return sorted(seq)
-            raise self.unsupported("sorted() of symbolic values", n)
+            seq = list(self.iterate(args[0], n))
+            keyf = kw.get("key")
+            rev = kw.get("reverse", False)
+            keys = [self.call_value(keyf, [x], n) for x in seq] if keyf is not None else list(seq)
+            if all(isinstance(x, str) for x in keys):
+                order = sorted(range(len(seq)), key=lambda i: keys[i], reverse=bool(rev))
+                return [seq[i] for i in order]
+            if not all(isinstance(x, Poly) for x in keys):
+                raise self.unsupported("sorted() of non-numeric keys", n)
+            # stable insertion sort; every comparison of symbolic keys is a decision (explored both ways)
+            order = []
+            for i in range(len(seq)):
+                pos = len(order)
+                while pos > 0:
+                    j = order[pos - 1]
+                    d = keys[i] - keys[j]
+                    if d.is_zero():
+                        break
+                    if not self.decide_sign(d, {-1}, "%s < %s" % (keys[i].short(30), keys[j].short(30))):
+                        break
+                    pos -= 1
+                order.insert(pos, i)
+            out = [seq[i] for i in order]
+            if rev is True:
+                # reverse=True keeps the original order of equal elements: sort descending == reverse of ascending only for
+                # distinct keys, which is what the decisions above established or left to `==` (treated as equal => stable)
+                out = list(reversed(out))
+            return out
         if name == "id":
             return Poly.var("pyid#%d" % id(args[0]))
         if name == "abs":
@@ -2476,6 +2545,21 @@ class Interp:
             a, b = self.to_arr(args[0], n).flat(), self.to_arr(args[1], n).flat()
             if len(a) == 3 and len(b) == 3:
                 return Arr([a[1] * b[2] - a[2] * b[1], a[2] * b[0] - a[0] * b[2], a[0] * b[1] - a[1] * b[0]], 1)
+        if name == "ndim":
+            v = args[0]
+            if isinstance(v, Arr):
+                return Poly.const(v.ndim)
+            if isinstance(v, Poly):
+                return Poly.const(0)
+            if isinstance(v, (list, tuple)):
+                return Poly.const(self.to_arr(v, n).ndim)
+            raise self.unsupported("np.ndim of %r" % (v,), n)
+        if name == "shape":
+            v = args[0]
+            if isinstance(v, Poly) or v is None or isinstance(v, (str, bool)):
+                return ()
+            a = v if isinstance(v, Arr) else self.to_arr(v, n)
+            return tuple(Poly.const(x) for x in a.shape)
         if name == "diag":
             a = self.to_arr(args[0], n)
             if a.ndim == 1:
